@@ -5,6 +5,7 @@
 import FordModel.Reader
 import FordModel.Lemmas.Split
 import FordModel.Lemmas.Reader
+import FordModel.Lemmas.ReaderLayout
 namespace Ford.C02
 open Ford
 
@@ -50,6 +51,96 @@ example : comScan [] "x = 'a!b' ! c".toList = some 10 := by decide
 example : comScan ['!'] "x = 'a!!b' !! c".toList = some 11 := by decide
 /-- literal still open at the `!` : no match -/
 example : comScan [] "x = 'a ! b".toList = none := by decide
+
+
+/-- **Layout invariance of a continued statement.**  A statement laid out over any
+    number of physical lines - first line `b0 &`, then any mixture of blank lines,
+    comment lines, `&`-only lines and continuation lines `[&] b &`, then a last line
+    `[&] bn` - is read as the single logical line obtained by joining the pieces (a
+    leading `&` joins the piece directly, its absence joins with exactly one blank),
+    which is then split at the `;` outside literals (`quoteSplit_lexical`).  The
+    hypotheses say only that each physical line carries no doc comment and that its
+    *code part*, under the lexical state the reader is in at that point, is the piece the
+    layout intends (`Rendered`); `code_part_*` below discharge that from the spelling of
+    the line.  No bound on the number of lines, pieces, or their lengths. -/
+theorem layout_join (m : Marks) (l0 : Str) (x : Char) (r : Str) (mids : List Mid)
+    (lines : List Str) (ln : Str) (lead : Bool) (b : Str) (rest : List Str)
+    (h0 : NoDoc m false l0) (hc0 : codeOf false l0 = x :: r ++ ['&']) (hx : x ≠ '&')
+    (hr : Rendered m (' ' :: x :: r) mids lines)
+    (hn : NoDoc m (unterminated (mids.foldl Mid.join (' ' :: x :: r))) ln)
+    (hcn : codeOf (unterminated (mids.foldl Mid.join (' ' :: x :: r))) ln = lastCode lead b)
+    (hb : isBlank b = false) (hl : b.getLast? ≠ some '&')
+    (hh : lead = false → ∃ y t, b = y :: t ∧ y ≠ '&')
+    (hJ : itemsOf (Mid.join (mids.foldl Mid.join (' ' :: x :: r)) (.cont lead b)) ≠ []) :
+    readFrom m (qs [] false) (l0 :: lines ++ ln :: rest) =
+      match readFrom m (qs [] false) rest with
+      | .error e => .error e
+      | .ok more =>
+        .ok (itemsOf (Mid.join (mids.foldl Mid.join (' ' :: x :: r)) (.cont lead b)) ++ more) :=
+  continuation_join m l0 x r mids lines ln lead b rest h0 hc0 hx hr hn hcn hb hl hh hJ
+
+/-- Blank lines, comment lines and `&`-only lines inside a continued statement are
+    transparent: inserting any number of them anywhere between the pieces does not
+    change the joined text (exact equality, not modulo blanks). -/
+theorem comment_lines_transparent (J : Str) (mids : List Mid)
+    (h : ∀ mid ∈ mids, mid = .blank ∨ ∃ ws, mid = .ampOnly ws) : mids.foldl Mid.join J = J := by
+  induction mids generalizing J with
+  | nil => rfl
+  | cons mid ms ih =>
+    have hm := h mid (by simp)
+    have : mid.join J = J := by
+      rcases hm with hm | ⟨ws, hm⟩ <;> subst hm <;> rfl
+    simp only [List.foldl_cons, this]
+    exact ih J (fun m' hm' => h m' (by simp [hm']))
+
+/-- A piece continued with a leading `&` is appended byte for byte - this is how a
+    character literal continued across lines is re-joined exactly: nothing is
+    inserted, stripped or interpreted between `J` and `b`, whatever `b` contains. -/
+theorem leading_amp_joins_verbatim (J b : Str) : Mid.join J (.cont true b) = J ++ b := rfl
+
+/-- The code part of a physical line that starts outside a literal: the first `!`
+    outside the (closed) literals starts the comment, whatever the comment contains
+    (quotes, `;`, `&`, further `!`); a `!` inside a literal does not. -/
+theorem code_part_outside_comment (p cmt : Str) (hp : Atoms p) :
+    codeOf false (p ++ '!' :: cmt) = strip p := codeOf_outside_comment p cmt hp
+
+theorem code_part_outside_plain (p : Str) (hp : Atoms p) : codeOf false p = strip p :=
+  codeOf_outside_plain p hp
+
+/-- a line ending inside a literal that the next line continues: any `!` in the open
+    literal is text, the whole line is code -/
+theorem code_part_outside_open_literal (p : Str) (q : Char) (body : Str) (hp : Atoms p)
+    (hq : isQuote q = true) (hb : q ∉ body) :
+    codeOf false (p ++ q :: body) = strip (p ++ q :: body) := codeOf_outside_open p q body hp hq hb
+
+/-- a line that starts inside a continued literal is taken whole and no doc-mark is
+    looked for on it, so a `!` or `!!` in the literal's continuation stays literal text -/
+theorem code_part_inside_literal (m : Marks) (l : Str) (h : firstStripped l ≠ some '#') :
+    codeOf true l = strip l ∧ NoDoc m true l := ⟨codeOf_inside l, noDoc_inside m l h⟩
+
+/-- an ordinary comment is never taken for a doc comment of any of the four kinds, and a
+    line without comment carries none -/
+theorem ordinary_comment_is_not_doc (m : Marks) (p cmt : Str) (hp : Atoms p)
+    (hfirst : firstStripped (p ++ '!' :: cmt) ≠ some '#')
+    (h1 : startsWith cmt m.pre = false) (h2 : startsWith cmt m.preAlt = false)
+    (h3 : startsWith cmt m.alt = false) (h4 : startsWith cmt m.doc = false) :
+    NoDoc m false (p ++ '!' :: cmt) :=
+  ⟨hfirst, matchDocmark_comment _ p cmt hp h1, matchDocmark_comment _ p cmt hp h2,
+    matchDocmark_comment _ p cmt hp h3, matchDocmark_comment _ p cmt hp h4⟩
+
+/-- Known finding C02-comment-while-literal-continued, as the code stands: on a line that
+    starts inside a continued literal the comment after the closing quote is *kept*
+    (the full-strength statement would give `&def'`). -/
+theorem comment_while_literal_continued_witness :
+    codeOf (unterminated "x = 'abc".toList) "  &def' ! a comment".toList = "&def' ! a comment".toList := by
+  decide
+
+/-- non-vacuity of `layout_join`: `x = 'a;b' &` / `! c` / `  & // 'it''s' ! tail` read with
+    the default marks gives the one statement `x = 'a;b'  // 'it''s'` -/
+example :
+    (match readAll Marks.default ["x = 'a;b' &".toList, "! c".toList, "  & // 'it''s' ! tail".toList] with
+      | .ok items => items == ["x = 'a;b'  // 'it''s'".toList]
+      | .error _ => false) = true := by decide
 
 /-- Historical witness of the defect repaired by the `fix:` commit 389e6bb: the old
     previous-character test called the closed literal `''` unterminated; the
